@@ -15,9 +15,9 @@ SVERIF = os.environ.get("SEED_VERIF", "/verif")
 ENV["VERIF_REPO"] = SREPO
 
 # seeded change -> the check(s) that decide it, where that is not the property it was seeded for
-OTHER_CHECK = {"C02-D": ["C14"], "C01-E": ["C14"],
-               # round 4: changes that need concurrent clients on one item are decided by C13 / C14
-               "C01-G": ["C14"], "C01-H": ["C13"], "C04-H": ["C13"]}
+OTHER_CHECK = {"C02-D": ["C14"], "C01-E": ["C14"]}
+# (round 4: C01-G, C01-H, C04-H, C10-G needed concurrent clients; since the third session the
+# checks of C01, C04, C10 have concurrent parts of their own and decide them themselves)
 
 
 def sh(cmd, cwd=None, timeout=4 * 3600):
